@@ -111,7 +111,11 @@ class Gef:
             parts = [x for x in parts if x != 'default()' and not x.startswith('PhantomData')]      # zero-sized markers differ between copies by construction
             r = '%s{%s}' % (self.name(nm), ','.join(parts))
         elif k == 'phi':
-            if v.id in visiting:
+            der = self.derived_cursor(v) if v.id not in visiting else None
+            if der is not None:
+                # a link carried along in a local (`next = node(i).left` kept up to date with the cursor i): it IS that link
+                r = 'node(%s).%s' % (self.term(der[0], depth + 1, visiting), self.field(der[1]))
+            elif v.id in visiting:
                 r = 'rec'
             else:
                 ops = set()
@@ -181,6 +185,72 @@ class Gef:
             return ('Eq(%s,%s)' % (a, b2), not truth)
         return (self.term(d), truth)
 
+    def bool_merge(self, d, truth, depth=0):
+        """a branch on a bool that was merged from a short-circuit (`let c = a && b; if c`): when only one incoming value
+        can have the wanted truth, the branch is that value's test together with the tests that lead to it"""
+        d = strip(d)
+        while d.kind == 'un' and d.args[0] == 'Not':
+            d = strip(d.args[1])
+            truth = not truth
+        if d.kind != 'phi' or d.extra.get('anyof') or depth > 3 or d.extra.get('block') in self.b.cfg.loops():
+            return None
+        if (d.ty or 'bool') != 'bool' or len(d.args) != len(d.extra.get('preds', ())):
+            return None
+        cands = []
+        for a, p in zip(d.args, d.extra['preds']):
+            sa = strip(a)
+            if sa.kind == 'const' and sa.args[0] in (0, 1, True, False):
+                if bool(sa.args[0]) == truth:
+                    cands.append((p, None))
+            else:
+                cands.append((p, sa))
+        if len(cands) > 1:
+            return []       # a disjunction: the short-circuit spelling has no single dominating test here either
+        if not cands:
+            return None
+        p, sa = cands[0]
+        out = set(self.guards(p))
+        if sa is not None:
+            sub = self.bool_merge(sa, truth, depth + 1)
+            if sub is not None:
+                out |= set(sub)
+            else:
+                ex = self.expand_predicate(sa, truth) if self.inline else None
+                if ex is not None:
+                    out |= set(ex)
+                else:
+                    out.add(self.cond(sa, truth))
+        return sorted(out, key=str)
+
+    def derived_cursor(self, L):
+        """L is a loop-header phi that on every incoming edge equals node(I).f for the value I takes on that edge, I being
+        another phi of the same header: (I, f); else None"""
+        if L.extra.get('anyof') or 'same_as' in L.extra:
+            return None
+        h = L.extra.get('block')
+        phis = self.b.phis.get(h, {})
+        if not phis or h not in self.b.cfg.loops():
+            return None
+        for I in phis.values():
+            if I is L or 'same_as' in I.extra or len(I.args) != len(L.args) or I.extra.get('preds') != L.extra.get('preds'):
+                continue
+            fld = None
+            ok = True
+            for la, ia in zip(L.args, I.args):
+                la, ia = strip(la), strip(ia)
+                nf = self.prog.node_field(la) if la.kind == 'load' else None
+                if nf is None or len(nf[1]) != 1 or strip(nf[0]) is not ia:
+                    ok = False
+                    break
+                if fld is None:
+                    fld = nf[1][0]
+                elif fld != nf[1][0]:
+                    ok = False
+                    break
+            if ok and fld is not None:
+                return (I, fld)
+        return None
+
     def expand_predicate(self, d, truth):
         """a branch on a private, effect-free bool helper (`is_black(i)`) is the branch on what the helper tests: the
         conjunction of the helper's own guards if exactly one of its returns gives this truth value, no guard at all if
@@ -233,6 +303,10 @@ class Gef:
                     continue
                 tr = edge_truth(t, succ)
                 if tr is not None:
+                    pb = self.bool_merge(d, tr)
+                    if pb is not None:
+                        out |= set(pb)
+                        continue
                     ex = self.expand_predicate(d, tr) if self.inline else None
                     if ex is not None:
                         out |= set(ex)
